@@ -329,6 +329,19 @@ class World:
         return [e[1][2:] for e in self.k.log[n0:] if e[3] == 'handler' and e[4] == lop], err
 
 
+def _broadcast_delete(self, reg, cnames):
+    G = self.G
+    objs = [make_obj(self.env[cn]) for cn in cnames]
+    n0 = len(self.k.log)
+    glom = G.glom if reg == 'default' else self.glommers[reg].glom
+    try:
+        glom(objs, G.Delete(G.Path(G.T.__star__(), 'x'), ignore_missing=True))
+        err = None
+    except Exception as e:
+        err = type(e).__name__
+    return [e[1][2:] for e in self.k.log[n0:] if e[3] == 'handler' and e[4] == 'delete'], err
+
+
 def battery(W, regs, names):
     out = {}
     for reg in regs:
@@ -336,6 +349,31 @@ def battery(W, regs, names):
             for lop in OPS:
                 out[f'{reg}/{cn}/{lop}'] = W.observe(reg, cn, lop)
     return out
+
+
+def _observe_raising(self, reg, cname, lop):
+    obj = self.objs[cname]
+    try:
+        h = self.real[reg].get_handler(lop, obj)
+    except self.G.UnregisteredTarget:
+        return 'unregistered'
+    if h is False:
+        return 'returned-False'
+    return regmodel.hname(h)
+
+
+def _list_is_plain_iterable(self, reg):
+    """does '*' over a plain list yield its items in this registry (not in a bare Glommer)?"""
+    r = self.real[reg]
+    try:
+        return r.get_handler('iterate', [], raise_exc=False) is iter and not r.get_handler('keys', [], raise_exc=False)
+    except Exception:
+        return False
+
+
+World.broadcast_delete = _broadcast_delete
+World.observe_raising = _observe_raising
+World.list_is_plain_iterable = _list_is_plain_iterable
 
 
 def run_history(case, ops, set_perm=None, lookups=True, drop_before_final=False, check=True):
@@ -368,6 +406,13 @@ def run_history(case, ops, set_perm=None, lookups=True, drop_before_final=False,
             trace.append([i, obs])
             st('lookups')
             if check:
+                # "nor on which lookups happened before": the quiet look-up above (raise_exc=False) must
+                # not change what a raising look-up of the same type does next
+                loud = W.observe_raising(op['reg'], op['cls'], op['lop'])
+                if loud != obs:
+                    viols.append({'clause': 'choice-is-stable', 'sig': 'choice-is-stable/raising-lookup-after-quiet-lookup/'
+                                  + ('returned-False' if loud == 'returned-False' else 'other'),
+                                  'expected': obs, 'observed': loud, 'op_index': i})
                 allowed, why = W.models[op['reg']].allowed(op['lop'], W.objs[op['cls']])
                 if len(allowed) > 1:
                     st('ambiguous_lookups')
@@ -379,6 +424,22 @@ def run_history(case, ops, set_perm=None, lookups=True, drop_before_final=False,
                     if op['lop'] in ('get', 'iterate', 'assign', 'delete') and obs not in ran:
                         viols.append({'clause': 'public-api', 'sig': f'public-api/{op["lop"]}-handler-not-run',
                                       'expected': obs, 'observed': {'ran': ran, 'err': err}, 'op_index': i})
+            if check and i % 3 == 0 and len(names) > 1 and W.list_is_plain_iterable(op['reg']):
+                # the same through a wildcard: every match is served by the handler of ITS nearest
+                # registered type (two children of different classes under one '*')
+                other = names[(names.index(op['cls']) + 1) % len(names)]
+                want = []
+                for cn in (op['cls'], other):
+                    h = W.observe(op['reg'], cn, 'delete')
+                    if h == 'unregistered':
+                        break
+                    if not h.startswith('builtin:'):
+                        want.append(h)
+                ran, err = W.broadcast_delete(op['reg'], [op['cls'], other])
+                st('broadcast_confirmations')
+                if ran != want:
+                    viols.append({'clause': 'public-api', 'sig': 'public-api/wildcard-delete-handlers',
+                                  'expected': want, 'observed': {'ran': ran, 'err': err}, 'op_index': i})
     if drop_before_final:
         for r in W.real.values():
             r._type_cache = {}
